@@ -193,7 +193,7 @@ impl<'r, 'c, 's, W: Write> Serializer for DatumSerializer<'r, 'c, 's, W> {
 				}
 			}
 			SchemaNode::Decimal(decimal) => {
-				let rust_decimal = rust_decimal::Decimal::from_str_exact(v).map_err(|parse_err| {
+				let rust_decimal = decimal::str_to_decimal(v).map_err(|parse_err| {
 					SerError::custom(format_args!(
 						"str cannot be converted to decimal for serialization as Decimal: {}",
 						parse_err
@@ -206,7 +206,7 @@ impl<'r, 'c, 's, W: Write> Serializer for DatumSerializer<'r, 'c, 's, W> {
 				)
 			}
 			SchemaNode::BigDecimal => {
-				let rust_decimal = rust_decimal::Decimal::from_str_exact(v).map_err(|parse_err| {
+				let rust_decimal = decimal::str_to_decimal(v).map_err(|parse_err| {
 					SerError::custom(format_args!(
 						"str cannot be converted to decimal for serialization as BigDecimal: {}",
 						parse_err
